@@ -54,3 +54,26 @@ Proof.
     change s2 with (fst (s2, xs)). rewrite <- E2. apply IH.
     intros y Hy. apply H. cbn. right. rewrite E2 in Hy. exact Hy.
 Qed.
+
+(* the sequence theorems, for the state a concurrent execution ends in: when the operations, in the order in which they
+   took the lock, carry fresh child names and channels, no channel has been closed twice, the two maps are mutually
+   consistent, no nil map sits under a parent key, and a booking has a key exactly while one of its connections has *)
+From Relay Require Import Proofs.ChanMap_proofs.
+
+Theorem concurrent_chanmap_total progs sched (s : cm_cstate) :
+  SerialEq.run cm_ueqb cm_upd sched (SerialEq.init progs (fun _ => cm_init)) = Some s -> SerialEq.finished s = true ->
+  fresh_adds (map (@SerialEq.c_op unit cop) (SerialEq.acqs s)) ->
+  SerialEq.st s tt = fst (crun cm_init (map (@SerialEq.c_op unit cop) (SerialEq.acqs s))) /\
+  NoDup (closedl (SerialEq.st s tt)) /\
+  consistent (SerialEq.st s tt) /\
+  (forall p, plk p (children (SerialEq.st s tt)) <> Some None) /\
+  (forall p, plk p (children (SerialEq.st s tt)) <> None <-> exists c, mlk c (pbc (SerialEq.st s tt)) = Some p).
+Proof.
+  intros Hr Hf Hfresh.
+  destruct (concurrent_chanmap_is_sequential progs cm_init sched s Hr Hf) as [Hst _].
+  destruct (chanmap_total _ Hfresh) as (Hnp & _ & Hnd & Hc & Hnil).
+  assert (E : SerialEq.st s tt = fst (crun cm_init (map (@SerialEq.c_op unit cop) (SerialEq.acqs s)))).
+  { rewrite Hst. symmetry. apply crun_cfinal. intros x Hx. rewrite Forall_forall in Hnp. exact (Hnp x Hx). }
+  rewrite E. split; [reflexivity|]. split; [exact Hnd|]. split; [exact Hc|]. split; [exact Hnil|].
+  exact (no_empty_parent_entries _ Hfresh).
+Qed.
